@@ -208,6 +208,19 @@ static std::string cmdRun(const std::vector<std::string>& a) {
 				w.beginArr().str("vissue").num(i.severity).str(i.message).str(i.xPath).endArr();
 			}
 		}
+		if (a.size() > 5 && a[5].size() > 0) {
+			// resume from a serialized state (C14)
+			try {
+				interp.deserialize(a[5]);
+				std::lock_guard<std::recursive_mutex> lock(g_recMutex);
+				w.beginArr().str("deserialized").endArr();
+			} catch (Event& e) {
+				std::stringstream ss; ss << e.data;
+				std::lock_guard<std::recursive_mutex> lock(g_recMutex);
+				w.beginArr().str("deserialize-rejected").str(e.name + ": " + ss.str().substr(0, 200)).endArr();
+				throw;
+			}
+		}
 		size_t nextEv = 0;
 		long waited = 0;
 		InterpreterState st = USCXML_UNDEF;
@@ -236,6 +249,8 @@ static std::string cmdRun(const std::vector<std::string>& a) {
 						Event e(tab == std::string::npos ? line : line.substr(0, tab), Event::EXTERNAL);
 						if (tab != std::string::npos) e.data = Data(line.substr(tab + 1), Data::VERBATIM);
 						interp.receive(e);
+						std::lock_guard<std::recursive_mutex> lock(g_recMutex);
+						w.beginArr().str("fed").str(e.name).endArr();
 					}
 					waited = 0;
 				} else if (waited < idleWaitMs) {
